@@ -1,7 +1,7 @@
 (* C06 — proof-number solver verdicts agree with the game-theoretic truth.
    Only statements, `exact`, and Print Assumptions live here.  Models: Pn.v (prove/pn.go without PN-squared; entry point
    PnRun.pn_run with the constants of /repo), Pn2.v (prove/pn.go with the PN-squared switch; entry point Pn2Run.pn2_run),
-   Dfpn.v (prove/dfpn.go).  Proofs: AndOr.v, AndOrS.v, PnFacts.v, PnRunFacts.v, Pn2Facts.v, Pn2RunFacts.v, DfpnFacts.v,
+   Dfpn.v (prove/dfpn.go).  Proofs: AndOr.v, AndOrS.v, PnFacts.v, PnRunFacts.v, Pn2Facts.v, Pn2RunFacts.v, Pn2Equiv.v, DfpnFacts.v,
    DfpnFactsL.v; non-vacuity examples: PnRunFacts.v, Pn2RunFacts.v, DfpnExample.v.
 
    The game the claims are about (PnFacts.v), for the attacker colour aw:
@@ -13,7 +13,7 @@
                   the line is not a win (AndOrS.v). *)
 From Coq Require Import NArith ZArith List Bool.
 Require Import Board Move GameOver Eval Search AndOr AndOrS Pn PnRun PnFacts PnRunFacts Dfpn DfpnFacts DfpnFactsL.
-Require Import Pn2 Pn2Run Pn2Facts Pn2RunFacts.
+Require Import Pn2 Pn2Run Pn2Facts Pn2RunFacts Pn2Equiv.
 Require Import Generated.Consts.
 Import ListNotations.
 Open Scope N_scope.
@@ -185,13 +185,43 @@ Theorem C06_pn2_verdict_sound :
 Proof. exact pn2_run_verdict_sound. Qed.
 Print Assumptions C06_pn2_verdict_sound.
 
+(* 9. With the switch off, the PN-squared model IS the plain model: Pn2Run.pn2_run_at ... false returns the tree, counters,
+   verdict, move and stop reason of PnRun.pn_run and an empty second-level trace - for every input, fuel and threshold.
+   (Pn.v re-descends from the root in every iteration and recomputes every ancestor of the expanded node; Pn2.v, like the
+   code, resumes at the node where updateAncestors stopped.  Without PN2 these are the same computation because the numbers
+   of every unsolved expanded node agree with its children and the path to `current` is the path selection takes from the
+   root - the two invariants of Pn2Equiv.v.  With PN2 neither holds, which is why Pn2.v cannot re-descend.) *)
+Theorem C06_pn2_off_is_pn :
+  forall threshold iters dfuel k2 dfuel2 maxnodes preserve maxdepth p,
+    pn2_run_at threshold iters dfuel k2 dfuel2 maxnodes preserve maxdepth false p =
+    let '(root, st, result, pv, why) := pn_run iters dfuel maxnodes preserve maxdepth p in (root, s_of st, result, pv, why).
+Proof. exact pn2_run_off. Qed.
+Print Assumptions C06_pn2_off_is_pn.
+
+(* 10. Block 4 for the PN-squared model: the two verdicts against the attractor of the retrograde oracle, under the same
+   congruence hypothesis (_partial for the same reason as block 4). *)
+Theorem C06_pn2_proven_rules_partial :
+  forall basis cfg threshold pn2on k2 dfuel2 p0 iters dfuel root s mv why,
+    equal_congruent basis (to_move_white p0) -> size p0 <= 8 ->
+    prove_pn2 basis (to_move_white p0) cfg threshold pn2on k2 dfuel2 iters dfuel p0 = (root, s, 1, mv, why) ->
+    exists k, Wb position pos_equal (succs basis) (terminal (to_move_white p0)) (attp (to_move_white p0)) k [] p0.
+Proof. exact pn2_proven_rules. Qed.
+Print Assumptions C06_pn2_proven_rules_partial.
+
+Theorem C06_pn2_disproven_attractor_partial :
+  forall basis cfg threshold pn2on k2 dfuel2 p0 iters dfuel root s mv why,
+    equal_congruent basis (to_move_white p0) -> size p0 <= 8 -> (0 <= pc_maxdepth cfg)%Z ->
+    prove_pn2 basis (to_move_white p0) cfg threshold pn2on k2 dfuel2 iters dfuel p0 = (root, s, 2, mv, why) ->
+    wn position (succs basis) (terminal (to_move_white p0)) (attp (to_move_white p0)) (Z.to_nat (pc_maxdepth cfg)) p0 = false.
+Proof. exact pn2_disproven_attractor. Qed.
+Print Assumptions C06_pn2_disproven_attractor_partial.
+
 (* Not proved (tested by the check: model = solver on every generated run, oracle = exact retrograde solution):
      the move returned by DFPN with `proven` (the oracle judges it);
      dfpn_disproven_sound for runs WITH repetitions: open in the design (a bound derived from a repetition on one path is
                             stored in the table and reused on other paths); the oracle hunts for a wrong `disproven` on
                             the cyclic region of the solved graphs (positions where the attacker can only shuffle - the
                             only roots where the search meets repetitions) and has found none;
-     that Pn2.v with the switch off computes what Pn.v computes (compared by the driver, whole tree and counters, on
-                            every plain PN case of the check);
-     the corollaries of block 4 for the PN-squared model (they follow from block 8 exactly as block 4 follows from block 3,
-                            under the same congruence hypothesis). *)
+     that the two "cannot happen" stops of Pn2.v (Stop2 4: a second-level search that returns without expanding its root;
+                            Stop2 5: a `current` path through a solved node) never occur: the driver reports them as
+                            mismatches if they do. *)
